@@ -2,6 +2,7 @@ SPECIFICATION GSpecSim
 CONSTANTS NB = 3
           NID = 2
           Wide = FALSE
+          Inners = {"plain", "w", "wV", "wA", "wVA", "tq", "bloom"}
           MaxBatch = 3
           D = 1000
           E = 30
